@@ -267,7 +267,7 @@ func isEPBitboard(v ssa.Value) bool {
 type plFacts struct {
 	promoLo, promoHi int64
 	promoNot         map[int64]bool
-	b                map[string]bool // "moved=3" -> true/false etc.
+	b                map[string]bool  // "moved=3" -> true/false etc.
 	exclusive        map[string]int64 // kind -> the one value established true (moved, stm, filediff, rankdiff)
 	infeasible       bool
 }
@@ -626,11 +626,11 @@ func c05R2(c *Ctx, p *Prog) {
 }
 
 type castleCase struct {
-	rights                         int64
-	rightsSeen, rightsOK           bool
-	empty, unatt                   uint64
-	emptySeen, emptyOK             bool
-	attSeen, attOK, byOpp          bool
+	rights                int64
+	rightsSeen, rightsOK  bool
+	empty, unatt          uint64
+	emptySeen, emptyOK    bool
+	attSeen, attOK, byOpp bool
 }
 
 // castleCaseFacts reads the rights bit, must-be-empty and must-be-unattacked sets tested in the
